@@ -2,11 +2,15 @@ from tcpcommon import *
 
 SPEC = dict(
     id="C01", corr="Corr.C01", driver="h_tcp", overlay=True, extra_overlay=tcp_overlay,
-    targets=["Properties/C01.vo", "Corr/C01.vo"],
+    targets=["Properties/C01.vo", "Corr/C01.vo", "Corr/C01mtu.vo"],
+    extra_phases=[dict(name="path-mtu-monitor-only", driver="h_tcp", corr="Corr.C01mtu", overlay=True, extra_overlay=tcp_overlay,
+                       args=lambda tier, seed: ["-seed", seed, "-mtu", "-mix", "c01,c05,c04,c02", "-n", 60 if tier == "quick" else 1200, "-events", 40],
+                       search_args=lambda seed: ["-seed", seed, "-mtu", "-mix", "c01,c05", "-n", 200, "-events", 40],
+                       shard=4, timeout=2400, patterns={})],
     args=lambda tier, seed: ["-seed", seed, "-mix", "c01,c04,c01,c05", "-n", 160 if tier == "quick" else 3000, "-events", 40],
     search_args=lambda seed: ["-seed", seed, "-mix", "c04,c05,c01,c02", "-n", 300, "-events", 40],
     shard=4, timeout=2400,
     patterns={},
-    rule="seeded scripts of <= 40 events against an established connection of the real stack (ISS/IRS from a set adjacent to 0, 2^31, 2^32 and random; peer MSS 20..1460, window scale, timestamps, SACK, IPv4/IPv6, small/large buffers): peer data in order / ahead / overlapping / far beyond the window (all slices of one peer stream), application writes and reads, cumulative / partial (mid-segment) / duplicate / beyond / old ACKs, retransmission time-outs, out-of-window RSTs, FINs; after EVERY event the implementation's protocol state, emitted frames and application result are compared with Model.Tcp.step; a trace is non-trivial when bytes were read by the application (tag bit 1) or data segments were emitted (tag bit 2); distinct = distinct case lines",
+    rule="seeded scripts of <= 40 events against an established connection of the real stack (ISS/IRS from a set adjacent to 0, 2^31, 2^32 and random; peer MSS 20..1460, window scale, timestamps, SACK, IPv4/IPv6, small/large buffers): peer data in order / ahead / overlapping / far beyond the window (all slices of one peer stream), application writes and reads, cumulative / partial (mid-segment) / duplicate / beyond / old ACKs, retransmission time-outs, out-of-window RSTs, FINs; after EVERY event the implementation's protocol state, emitted frames and application result are compared with Model.Tcp.step; a trace is non-trivial when bytes were read by the application (tag bit 1) or data segments were emitted (tag bit 2); distinct = distinct case lines; phase 2 (path-mtu-monitor-only): the same kind of scripts with path-MTU reductions mixed in (an ICMPv4 'fragmentation needed' message naming a smaller - sometimes a larger - next-hop MTU is injected: snd.go updateMaxPayloadSize lowers the maximum payload, rewinds to the first queued segment that no longer fits and resends from there); Model.Tcp has no event for this, so there is NO correspondence for these traces (corr only checks the handshake-derived first snapshot): they are judged by the monitors alone - C01 data integrity, C04 window/MSS, C02 close/stall (Corr/C01mtu.v); tag bit 4: an MTU notification made the sender emit data",
     trusted_base=TCP_TB, assumptions=TCP_ASSUME,
 )
